@@ -13,7 +13,7 @@ Theorem C02_invocation_recorded : forall st callee target tic inner whole args h
       calls_at (body_event st (ECall callee target tic inner whole args has_args p)) (cur_key st)
       = (calls_at st (cur_key st) ++ [c])%list /\
       c_fn c = callee /\
-      c_pos c = mkPos (q_sl p) (q_sc p) (q_el p) (q_sc p + String.length callee) /\
+      c_pos c = mkPos (q_sl p) (q_sc p) (q_el p) (q_sc p + rune_count callee) /\
       c_params c = (if has_args then map (fun a => mkProp "" a) args else []).
 Proof. exact method_call_recorded. Qed.
 Print Assumptions C02_invocation_recorded.
